@@ -91,6 +91,9 @@ def make_case(rng, fmt):
                 r["shielded"] = s
             elif r["rtype"] in (11, 12):
                 r["reactants"] = ["GH2O"]
+            # the Leeds photo law applies self-shielding whenever the (first) reactant is H2, CO or N2 - also when drawn at random
+            if r["rtype"] == 4 and r["reactants"][0] in ("H2", "CO", "N2"):
+                r["shielded"] = r["reactants"][0]
         elif fmt == "uclchem":
             r["marker"] = rng.choice([None, None, "CRP", "CRPHOT", "PHOTON"])
             r["reactants"] = r["reactants"][:1] if r["marker"] else r["reactants"]
